@@ -164,6 +164,16 @@ class PathEnumerator:
             env3 = {k: v for k, v in env.items() if k.split(".")[0] not in killed}
             # (the loop completes whatever the number of iterations: no condition is attached to the completion path)
             yield from self._block(list(st.orelse), conds, env3, events + [("loop", marker, list(st.body))])
+        elif isinstance(st, ast.While):
+            # like `for`: the body is walked once under a marker (paths that leave the function are reported), loop-carried
+            # assignments are not tracked, and the completion path carries no condition
+            killed_w = {n.id for s in st.body for n in ast.walk(s) if isinstance(n, ast.Name) and isinstance(n.ctx, ast.Store)}
+            body_env = {k: v for k, v in env.items() if k.split(".")[0] not in killed_w}
+            marker = ("while", unparse(st.test), substitute(st.test, body_env))
+            for c2, e2, ev2, term in self._block(list(st.body), conds + [(marker, True)], body_env, events):
+                if term is not None and term[0] in ("raise", "return"):
+                    yield c2, e2, ev2, term
+            yield from self._block(list(st.orelse), conds, body_env, events + [("loop", marker, list(st.body))])
         elif isinstance(st, ast.Try):
             handlers = st.handlers
             sbody = [S(b) for b in st.body]
